@@ -36,6 +36,12 @@ def features(mod, t, v):
                 f.add('int_semi_lb_nonzero')
             if c is not None and c.ext and not c.contains(v):
                 f.add('int_out_of_root')
+            if c is not None and not c.ext and c.lb == 0 and c.ub is None and v > 0 and v.bit_length() % 8 == 0:
+                f.add('int_semi_msb_set')
+            if c is not None and c.ext and ',...,' in c.text.replace(' ', ''):
+                f.add('int_ext_additional_ranges')
+            if c is not None and not c.ext and c.lb is not None and c.ub is not None and c.ub - c.lb >= (1 << 63):
+                f.add('int_range_ge_2_63')
         if k == 'BIT STRING':
             b, n = v
             last0 = n > 0 and not (b[(n - 1) >> 3] & (0x80 >> ((n - 1) & 7)))
@@ -45,6 +51,13 @@ def features(mod, t, v):
                 f.add('bitstr_named_trailing_zero')
             if n == 0:
                 f.add('bitstr_empty')
+            sc = size_cons(mod, t)
+            if sc is not None and sc.ext and not sc.contains(n):
+                f.add('bitstr_out_of_root_size')
+        if k in KNOWN_MULT:
+            sc = size_cons(mod, t)
+            if sc is not None and sc.ext and not sc.contains(len(v)):
+                f.add('kmstr_out_of_root_size')
         if k == 'ENUMERATED':
             adds = [x for _, x in bt.adds]
             if v in adds:
@@ -74,4 +87,9 @@ def features(mod, t, v):
             if k == 'SET OF' and len(v) > 1:
                 f.add('setof_multi')
     walk(mod, t, v, fn)
+    top = t
+    # the named type itself is a bare (possibly tagged) reference to / alias of a useful type
+    f.add('top:' + mod.resolve(top).kind)
+    if top.kind != 'REF' and top.size is None and top.alpha is None and top.cons is None:
+        f.add('top_bare:' + top.kind)
     return f
